@@ -29,7 +29,7 @@ Line == TraceLog[l]
 AbsPkt(lp) ==
   CASE lp.k = "hs"     -> [k |-> "hs", cls |-> lp.cls, caps |-> lp.caps, major |-> lp.major, minor |-> lp.minor]
     [] lp.k = "create" -> [k |-> "create", cls |-> lp.cls, cookieGood |-> (lp.hascookie /\ Tok!PaaAccept(lp.tok))]
-    [] lp.k = "chan"   -> [k |-> "chan", cls |-> lp.cls, hostAllowed |-> Pol!Verdict(lp.pol)]
+    [] lp.k = "chan"   -> [k |-> "chan", cls |-> lp.cls, hostAllowed |-> Pol!Verdict(lp.pol), reach |-> lp.reach]
     [] OTHER           -> [k |-> lp.k, cls |-> lp.cls]
 
 \* ---- abstraction of the observed reaction -------------------------------------
@@ -74,8 +74,9 @@ TReset == /\ l <= Len(TraceLog) /\ Line.ev = "reset"
           /\ l' = l + 1 /\ UNCHANGED <<viol, cover>>
 
 TPkt == /\ l <= Len(TraceLog) /\ Line.ev = "pkt"
-        /\ LET p  == AbsPkt(Line.p)
+        /\ LET p  == AbsPkt(IF Line.p.k = "chan" THEN [Line.p EXCEPT !.reach = Line.o.conn] ELSE Line.p)
                o  == AbsOut(Line.o)
+               \* whether the requested address accepts connections is a fact of the environment: taken from the attempt itself
                n  == IF nd > 1 THEN 1 ELSE nd
                bad == Violated(cfg, phase, n, p, o) \cup FieldViolated(cfg, p, Line.p, Line.o)
            IN /\ viol' = viol \cup {<<l, g, phase, p.k, p.cls>> : g \in bad}
